@@ -257,3 +257,94 @@ def features(ty, acc=None, depth=0):
                 hit("anonymous-member")
             features(f["ty"], acc, depth + 1)
     return acc
+
+
+# ------------------------------------------------------------------------------------------------ hoisting (named sub-definitions, mixed alignment)
+# A nested struct/union that is a *named* member (directly or as array element) can be "hoisted": it is rendered as a named
+# top-level definition of its own and referenced by name from its parent.  Every hoisted definition is loaded by its own
+# cs.load call, so it can carry an `align` flag different from its parent's (mixed alignment modes on one instance) and can
+# be addressed by name (len(N), sizeof(N), N[2]).  The tree itself keeps its shape; a hoisted member's field dict gets
+#   f["ref"] = (type name, align flag)      and every aggregate member   f["eff_align"] = the flag that governs it.
+
+def innermost(ty):
+    while ty[0] in ("arr", "ptr"):
+        ty = ty[1]
+    return ty
+
+
+def _copy_ty(ty):
+    k = ty[0]
+    if k in ("struct", "union"):
+        return (k, [dict(f, ty=_copy_ty(f["ty"])) for f in ty[1]])
+    if k == "arr":
+        return ("arr", _copy_ty(ty[1]), ty[2])
+    if k == "ptr":
+        return ("ptr", _copy_ty(ty[1]))
+    return ty
+
+
+def hoist(tree, rnd: random.Random, *, p=0.6, top_align=False, mixed=False, prefix="N"):
+    """-> (plan, tree2).  plan = [(name, aggregate subtree, align flag)] in load order (dependencies first), the last
+    entry being ("T", tree2, top_align); tree2 is an annotated deep copy of `tree` (see above).  mixed=False: every
+    hoisted definition uses top_align (same layout as the inline definition); mixed=True: each one draws its own flag."""
+    tree2 = _copy_ty(tree)
+    plan = []
+    counter = [0]
+
+    def visit(agg, align):
+        for f in agg[1]:
+            inner = innermost(f["ty"])
+            if inner[0] not in ("struct", "union"):
+                continue
+            has_ptr = False
+            t = f["ty"]
+            while t[0] in ("arr", "ptr"):
+                has_ptr = has_ptr or t[0] == "ptr"
+                t = t[1]
+            if f["name"] is not None and not f["bits"] and not has_ptr and rnd.random() < p:
+                counter[0] += 1
+                name = f"{prefix}{counter[0]}"
+                a = (rnd.random() < 0.5) if mixed else align
+                f["ref"] = (name, a)
+                f["eff_align"] = a
+                visit(inner, a)
+                plan.append((name, inner, a))
+            else:
+                f["eff_align"] = align
+                visit(inner, align)
+
+    visit(tree2, top_align)
+    plan.append(("T", tree2, top_align))
+    return plan, tree2
+
+
+def render_field_refs(f):
+    """like render_field, but a hoisted member is rendered as a reference to its named definition"""
+    if "ref" not in f:
+        ty = f["ty"]
+        inner = innermost(ty)
+        if inner[0] in ("struct", "union") and any("ref" in g or innermost(g["ty"])[0] in ("struct", "union") for g in inner[1]):
+            # inline aggregate with hoisted members somewhere below: render its body with references
+            dims = []
+            while ty[0] == "arr":
+                l = ty[2]
+                dims.append({"fixed": lambda: str(l[1]), "expr": lambda: l[1], "null": lambda: "", "eof": lambda: "EOF"}[l[0]]())
+                ty = ty[1]
+            body = " ".join(render_field_refs(g) for g in inner[1])
+            head = f"{inner[0]} {{ {body} }}"
+            if f["name"] is None:
+                return f"{head};"
+            return f"{head} {f['name']}{''.join(f'[{d}]' for d in dims)};"
+        return render_field(f, None)
+    ty = f["ty"]
+    dims = []
+    while ty[0] == "arr":
+        l = ty[2]
+        dims.append({"fixed": lambda: str(l[1]), "expr": lambda: l[1], "null": lambda: "", "eof": lambda: "EOF"}[l[0]]())
+        ty = ty[1]
+    return f"{f['ref'][0]} {f['name']}{''.join(f'[{d}]' for d in dims)};"
+
+
+def render_struct_refs(name: str, t) -> str:
+    body = "\n  ".join(render_field_refs(f) for f in t[1])
+    return f"{t[0]} {name} {{\n  {body}\n}};\n"
